@@ -338,7 +338,12 @@ func run(prop *property, tier int, tierName string, seed int64, replay, scratch 
 				os.MkdirAll(dir, 0o755)
 				shardFile := filepath.Join(dir, "shard.json")
 				failFile := filepath.Join(dir, "rapid.fail")
-				rseed := 1 + (seed*1000003+int64(pi)*1009+int64(k))%(1<<62)
+				// rapid seeds its i-th case with base+i(i+1)/2: shards whose base seeds are close to
+				// each other would replay each other's first cases (with 3 cases per shard and
+				// consecutive bases, 16 shards produce 19 distinct programs instead of 48), so the
+				// base seeds are spread over the whole range with a splitmix64 hash of
+				// (VERIF_SEED, part, shard).
+				rseed := int64(splitmix(uint64(seed)*0x9e3779b97f4a7c15+uint64(pi)*0xbf58476d1ce4e5b9+uint64(k)*0x94d049bb133111eb+1) >> 2)
 				if rseed <= 0 {
 					rseed = 1 - rseed
 				}
@@ -673,6 +678,13 @@ func saveLog(id string, r *shardResult) {
 		out = out[:100000] + "\n…\n" + out[len(out)-100000:]
 	}
 	os.WriteFile(filepath.Join(dir, fmt.Sprintf("%s-%d.log", r.part, r.idx)), []byte(out), 0o644)
+}
+
+func splitmix(x uint64) uint64 {
+	x += 0x9e3779b97f4a7c15
+	x = (x ^ (x >> 30)) * 0xbf58476d1ce4e5b9
+	x = (x ^ (x >> 27)) * 0x94d049bb133111eb
+	return x ^ (x >> 31)
 }
 
 func lastLines(s string, n int) string {
